@@ -104,7 +104,7 @@ fn build_any<T: HashLike>(v: &HV, how: u64) -> T {
     }
 }
 
-fn check_type<T: HashLike>(l: &mut Local, rng: &mut Rng) {
+pub fn check_type<T: HashLike>(l: &mut Local, rng: &mut Rng) {
     let vals = pool(rng, T::S2, T::NORM);
     let objs: Vec<T> = match guard(|| vals.iter().map(|v| build_any::<T>(v, rng.next())).collect::<Vec<T>>()) {
         Ok(o) => o,
